@@ -22,7 +22,14 @@ every delivery instant of a notification/probe within `jit` ms of its scripted t
 `Spec.C17` quantify over all arrival times and all picks, so each of them is a run of the model).
 A scenario whose events are well separated has exactly one outcome and the line is the same text on
 both sides; for a near-tie scenario the real outcome must be a member of the set.
-`runs=` lists the production start times of the admissible runs (used by the timing monitor). -/
+`runs=` lists the production start times of the admissible runs (used by the timing monitor).
+
+Start-up wait (`Lazy.Sys`, `Lazy.boot`): with `since=<ms> via=genesis|last sn=<o1+o2|-> sp=<p1+p2|->` the
+clock starts at the reference instant of the wait (`via=last`: the time of the last block before the
+restart; `via=genesis`: genesis time, nothing produced yet), `AggregationLoop` is called `since` ms
+later, `NotifyNewTransactions()` is called `o` ms after that call for every `o` of `sn` (token `w<j>`)
+and a probe passes `p` ms after it for every `p` of `sp` (token `q<j>`).  Without `since` the loop
+proper starts at 0 (no wait), as before. -/
 namespace Drv.C17
 open Lazy
 
@@ -67,9 +74,11 @@ structure Ev where
   notif : Bool
   k : Nat
   j : Nat
+  /-- scripted relative to the call of `AggregationLoop` (start-up wait), not to a production -/
+  pre : Bool := false
   deriving Repr, BEq
 
-def Ev.key (e : Ev) : List Nat := [e.hi, e.lo, if e.notif then 0 else 1, e.k, e.j]
+def Ev.key (e : Ev) : List Nat := [e.hi, e.lo, if e.notif then 0 else 1, e.k, e.j, if e.pre then 1 else 0]
 
 def lexLe : List Nat → List Nat → Bool
   | [], _ => true
@@ -81,10 +90,16 @@ def insertEv (e : Ev) : List Ev → List Ev
   | [] => [e]
   | x :: xs => if lexLe e.key x.key then e :: x :: xs else x :: insertEv e xs
 
-def Ev.tok (e : Ev) : String := (if e.notif then "n" else "p") ++ toString e.k ++ "." ++ toString e.j
+def Ev.tok (e : Ev) : String :=
+  if e.pre then (if e.notif then "w" else "q") ++ toString e.j
+  else (if e.notif then "n" else "p") ++ toString e.k ++ "." ++ toString e.j
+
+def sysFlight : Sys → Option Flight
+  | .waiting _ _ _ => none
+  | .running s => s.flight
 
 structure Sim where
-  st : St
+  st : Sys
   sched : List Ev
   k : Nat               -- productions started so far
   toks : List String    -- reversed
@@ -97,22 +112,22 @@ structure Env where
   dd : Nat
   jit : Nat
 
-def mkEvs (jit p k : Nat) (notif : Bool) (offs : List Nat) : List Ev :=
+def mkEvs (jit p k : Nat) (notif : Bool) (offs : List Nat) (pre : Bool := false) : List Ev :=
   (List.range offs.length).zip offs |>.map fun (j, o) =>
-    { lo := max p (p + o - jit), hi := p + o + jit, notif := notif, k := k, j := j }
+    { lo := max p (p + o - jit), hi := p + o + jit, notif := notif, k := k, j := j, pre := pre }
 
 /-- one quantum of the loop goroutine (`Lazy.step … (.tick pick dur)`) + bookkeeping of the events -/
 def tickWith (e : Env) (sim : Sim) (pick : Nat) : Sim :=
-  let r := step e.cfg sim.st (.tick pick (durOf e.script e.dd sim.k))
+  let r := sysStep e.cfg sim.st (.tick pick (durOf e.script e.dd sim.k))
   match r.2 with
   | [] =>
-    match sim.st.flight, r.1.flight with
+    match sysFlight sim.st, sysFlight r.1 with
     | some _, none => { sim with st := r.1, toks := ("e" ++ toString (sim.k - 1)) :: sim.toks }
     | _, _ => { sim with st := r.1 }
   | p :: _ =>
     let cause :=
       if e.cfg.lazy then
-        match r.1.flight with
+        match sysFlight r.1 with
         | some f => if f.viaBlock then "B" else "L"
         | none => "?"
       else "N"
@@ -123,16 +138,23 @@ def tickWith (e : Env) (sim : Sim) (pick : Nat) : Sim :=
 
 def deliver (e : Env) (sim : Sim) (ev : Ev) : Sim :=
   { sim with
-    st := if ev.notif then (step e.cfg sim.st .notify).1 else sim.st
+    st := if ev.notif then (sysStep e.cfg sim.st .notify).1 else sim.st
     sched := sim.sched.filter (· != ev)
     toks := ev.tok :: sim.toks }
 
 /-- has the loop goroutine something to do at this instant (code after `publishBlock` returned, or a
 ready `select` case)? -/
-def loopReady (cfg : Cfg) (s : St) : Bool :=
-  match s.flight with
-  | some f => f.fin ≤ s.now
-  | none => !(enabled cfg s).isEmpty
+def loopReady (cfg : Cfg) : Sys → Bool
+  | .waiting now wake _ => wake ≤ now          -- `time.After(delay)` fired (or there was no delay)
+  | .running s =>
+    match s.flight with
+    | some f => f.fin ≤ s.now
+    | none => !(enabled cfg s).isEmpty
+
+/-- number of ways the loop goroutine can continue when it is ready -/
+def nChoices (cfg : Cfg) : Sys → Nat
+  | .waiting _ _ _ => 1
+  | .running s => if s.flight.isSome then 1 else (enabled cfg s).length
 
 /-- micro-steps possible at the current instant: deliver an event whose window is open, let the loop
 goroutine run (any ready case), or — only when the goroutine is blocked and no event is overdue —
@@ -142,9 +164,7 @@ def succs (e : Env) (sim : Sim) : List Sim :=
   let ds := (sim.sched.filter (·.lo ≤ now)).map (deliver e sim)
   let ready := loopReady e.cfg sim.st
   let ls :=
-    if ready then
-      if sim.st.flight.isSome then [tickWith e sim 0]
-      else (List.range (enabled e.cfg sim.st).length).map (tickWith e sim)
+    if ready then (List.range (nChoices e.cfg sim.st)).map (tickWith e sim)
     else []
   let adv := if !ready && sim.sched.all (fun ev => now < ev.hi) then [tickWith e sim 0] else []
   ds ++ ls ++ adv
@@ -170,8 +190,17 @@ def strLe (a b : String) : Bool := compare a b != Ordering.gt
 
 def sortStrs (l : List String) : List String := (l.eraseDups).mergeSort strLe
 
-def finals (e : Env) (horizon : Nat) : List Sim :=
-  explore e horizon (horizon + 1) [{ st := Lazy.init, sched := [], k := 0, toks := [], starts := [] }]
+/-- `start = none`: the loop proper from time 0; `some (since, sn, sp)`: `AggregationLoop` called
+`since` ms after the reference instant 0, with the scripted start-up notifications and probes. -/
+def initSim (e : Env) (start : Option (Nat × List Nat × List Nat)) : Sim :=
+  match start with
+  | none => { st := .running Lazy.init, sched := [], k := 0, toks := [], starts := [] }
+  | some (since, sn, sp) =>
+    let evs := mkEvs e.jit since 0 true sn true ++ mkEvs e.jit since 0 false sp true
+    { st := boot e.cfg 0 since, sched := evs.foldl (fun acc ev => insertEv ev acc) [], k := 0, toks := [], starts := [] }
+
+def finals (e : Env) (horizon : Nat) (start : Option (Nat × List Nat × List Nat)) : List Sim :=
+  explore e horizon (horizon + 1) [initSim e start]
 
 def outcomeOf (upto : Nat) (s : Sim) : String :=
   let t := s.toks.reverse.take upto
@@ -195,7 +224,19 @@ def step (_ : Unit) (line : String) : Unit × String :=
         if (mode ≠ "lazy" && mode ≠ "normal") || b = 0 || i = 0 || span = 0 || span > 30000 || upto = 0 || jit > 500 then "bad-op"
         else
           let e : Env := { cfg := { block := b, idle := i, lazy := mode = "lazy" }, script := script, dd := dd, jit := jit }
-          let fs := finals e span
+          let start : Option (Option (Nat × List Nat × List Nat)) :=
+            match o.get? "since" with
+            | none => some none
+            | some sv =>
+              match sv.toNat? with
+              | none => none
+              | some since =>
+                if since > 30000 || (o.str "via" ≠ "genesis" && o.str "via" ≠ "last") then none
+                else some (some (since, parseOffs (o.str "sn"), parseOffs (o.str "sp")))
+          match start with
+          | none => "bad-op"
+          | some start =>
+          let fs := finals e span start
           let outs := sortStrs (fs.map (outcomeOf upto))
           let runs := sortStrs (fs.map fun s => natList s.starts.reverse)
           s!"outs={showSet 12 outs} runs={showSet 4 runs}"
